@@ -626,6 +626,23 @@ def shrink_xcase(binary, line):
     return render(head, acc, ops)
 
 
+def ordered_script_cases():
+    """a script written as ONE ordered pattern with a then()-series whose last response is left unquantified (`next_call(r0).returns(a)
+    .n_times(k).then().returns(b)`: k+1 consecutive slots), replayed through provided methods of every borrowed receiver kind whose
+    bodies make one required call each; followed by an ordered pattern of the other required method"""
+    out = []
+    for m in (14, 15, 19):
+        for k in (1, 2):
+            for tail_quant in (False, True):
+                ops = [("ret", 1), ("n", k), ("then",), ("ret", 2)] + ([("n", 1)] if tail_quant else [])
+                terms = [{"kind": "call", "mid": 10, "opener": "next", "pat": {"matcher": 255, "dbg": 1, "ops": ops}},
+                         {"kind": "call", "mid": 11, "opener": "next", "pat": {"matcher": 255, "dbg": 2, "ops": [("ret", 3)]}}]
+                # a = 1: the body calls r0(1); a = 2: r0(2) then r1(3)
+                evs = [{"base": ("call", 0, m, 1)} for _ in range(k)] + [{"base": ("call", 0, m, 2)}, {"base": ("verify", 0)}]
+                out.append({"partial": False, "terms": terms, "events": evs})
+    return out
+
+
 def mirrors_binary():
     traits = M.inventory()
     gen_src = M.gen_rs(traits)
@@ -709,7 +726,7 @@ def run(tier, seed):
     from . import C15
     dn, dpayload = (0, None)
     if not (bad_rows or not table_ok or bad or xbad):
-        dn, dpayload = DP.run_part("C20", "deleg20", [C15.gen_case(rng) for _ in range(40 if tier == "quick" else 300)]
+        dn, dpayload = DP.run_part("C20", "deleg20", ordered_script_cases() + [C15.gen_case(rng) for _ in range(40 if tier == "quick" else 300)]
                                    + [DP.report_case(rng) for _ in range(60 if tier == "quick" else 500)], seed,
                                    "correspondence C20 (receiver part): unmocked provided methods through every receiver kind vs the model")
     n_obl = len(obligations) + 4
@@ -780,6 +797,23 @@ def run(tier, seed):
         C.write_evidence("C20", tier, seed, cov, time.time() - t0, 1)
         C.violation("C20", path, no_input=(r is None and not bad))
         return 1
+    # replies a script gives REPEATEDLY (each_call / n_times / at_least_times / then) on the return shapes of the mirrored async traits -
+    # Poll<Result<&T, E>>, Poll<Option<..>>, Result<&T, E>, Option<&T>, Vec - with a cloneable error: the C17 machinery in a crate of its own
+    from . import C12
+    kn, ktypes, kbad = C12.composite_part(rng, tier, crate="outputs20", limit=60 if tier == "quick" else 250)
+    cov["composite_part"] = {"evaluations": kn, "types": ktypes}
+    cov["obligations"] += 1
+    cov["evaluations"] = cov.get("evaluations", 0) + kn
+    if kbad:
+        b = dict(kbad[0])
+        b.update({"property": "C20", "seed": seed, "part": "composite", "disagreeing_cases_in_run": len(kbad),
+                  "theorem_or_correspondence": "correspondence C20 (composite part): repeated replies on composite return types vs Macro/Output.v (C17_single_use / C17_multi_use)",
+                  "replay_cmd": "./check C20 --replay <this file>"})
+        path = C.write_replay("C20", seed, b)
+        C.write_evidence("C20", tier, seed, cov, time.time() - t0, 1)
+        C.violation("C20", path)
+        return 1
+    cov["discharged"] += 1
     C.write_evidence("C20", tier, seed, cov, time.time() - t0, 0,
                      assumptions=["model/implementation agreement is established on the generated scripts and on the observed wiring table only",
                                   "upstream bodies other than those transcribed in Macro/StdBodies.v are covered by the parametric theorem and the "
@@ -798,6 +832,11 @@ def replay(path):
     if payload.get("part") == "deleg":
         from .. import deleg_part as DP
         return DP.replay("C20", payload, path)
+    if payload.get("part") == "composite":
+        from . import C12
+        return C12.replay_composite("C20", payload, path, "outputs20")
+    if payload.get("part") == "xcase":
+        return replay_xcase("C20", payload, path)
     traits = M.inventory()
     gen_src = M.gen_rs(traits)
     gpath = os.path.join(C.VERIF, "harness", "mirrors", "src", "gen.rs")
